@@ -18,6 +18,8 @@ def systems(tier):
     out = [
         E.SystemSpec([(M("C"), 100)], 40.0, "one-fixed"),
         E.SystemSpec([(M("C"), 100)], float(two_m), "one-fixed-exact-boundary"),
+        # the system mass one mDa above two members (a relative tolerance of 1e-5 would call that "reached")
+        E.SystemSpec([(M("CCCCCCCCCC"), 100)], 240.221, "one-fixed-hair-above-two-members"),
         E.SystemSpec([(M("C"), 50), (M("CCCCCCCCCC"), 50)], 260.0, "methane-decane"),
         E.SystemSpec([(M("CCCO"), 20), (M("CC(C)O"), 30), (M("CCOC"), 50)], 170.0, "isomers"),
         E.SystemSpec([(M("C1CCOC1"), 10), (M("C[>]", S("[>]", ["[<]CC[>]"], [], "[<]", g(40)), "[<]O"), 90)], 150.0, "solvent-polymer"),
